@@ -340,17 +340,14 @@ class Polynomial(Vector):
                         are broadcasted together.
         """
 
-        if self.order == 0:
-            if recursive:
-                return Scalar(example=self)
-            else:
-                return Scalar(example=self.wod)
-
         x = Scalar.as_scalar(x, recursive=recursive)
-        x_powers = [1., x]
-        x_power = x
-        for k in range(1,self.order):
-            x_power *= x
+
+        # Start from x**0, which has the shape and mask of x. Each power is a
+        # new object, so neither x nor an earlier list entry is ever modified.
+        x_power = Scalar(np.ones(x._shape_), x._mask_)
+        x_powers = [x_power]
+        for k in range(self.order):
+            x_power = x_power * x
             x_powers.append(x_power)
 
         x_powers = Vector.from_scalars(*(x_powers[::-1]))
